@@ -91,6 +91,9 @@ fn check(tape: &[u8], ctx: &Ctx) -> Outcome {
     let spec = ResizeSpec::decode(&mut t, &profile(ctx.tier));
     let guard = !t.chance(64);
     let mut o = Outcome::new(spec.desc());
+    if std::env::var("FIRV_DESCRIBE_ONLY").is_ok() {
+        return o;
+    }
     let src = exec::src_image(&spec, if guard { Placement::GuardEnd } else { Placement::Heap });
     let run = match exec::run_resize(&spec, src.bytes(), 0xA5, if guard { Placement::GuardEnd } else { Placement::Heap }) {
         Ok(r) => r,
